@@ -85,8 +85,13 @@ func (h *HTTP) fake404(ctx *gin.Context) {
 		logger.Debug("Could not read fake 404 page: " + err.Error())
 		return
 	}
-	ctx.Header("Server", "nginx")
-	ctx.Header("Content-Type", "text/html")
+	// keep response headers the profile configured for this listener
+	if ctx.Writer.Header().Get("Server") == "" {
+		ctx.Header("Server", "nginx")
+	}
+	if ctx.Writer.Header().Get("Content-Type") == "" {
+		ctx.Header("Content-Type", "text/html")
+	}
 	ctx.Header("X-Havoc", "true")
 	ctx.Writer.Write(html)
 }
@@ -217,6 +222,7 @@ func (h *HTTP) Start() {
 
 	h.GinEngine.POST("/*endpoint", h.request)
 	h.GinEngine.GET("/*endpoint", h.fake404)
+	h.GinEngine.NoRoute(h.fake404)
 	h.Active = true
 
 	if h.Config.Secure {
